@@ -229,3 +229,30 @@ Definition C05_final_only : Prop :=
        held = [] /\ fin = filter (final_now s) hi /\
        blocks_from_cursor s c = BOk (map (final_event SNewIrr hd) fin ++ map (new_event s hd) (filter (not_final_now s) hi)) /\
        map eblk (irr_events evs) = map seg_blk (filter (final_now s) hi)).
+
+(* ------------------------------------------------------------------ 5. no source; no panic, no fuel exhaustion *)
+
+Definition served_or_not (b : burst) : Prop := (exists evs, b = BOk evs) \/ b = BErr.
+
+Definition C05_through_no_source : Prop :=
+  forall s start c,
+    (has_lib (db s) = false -> blocks_through_cursor s start c = BErr) /\
+    (forall hd sg, last_sent s = Some hd -> complete_segment (db s) (bref hd) = Some (sg, false) ->
+                   blocks_through_cursor s start c = BErr) /\
+    (forall hd, last_sent s = Some hd -> complete_segment (db s) (bref hd) = Some ([], true) ->
+                blocks_through_cursor s start c = BErr) /\
+    (* start below the retained chain *)
+    (forall hd s0 sg, last_sent s = Some hd -> complete_segment (db s) (bref hd) = Some (s0 :: sg, true) ->
+                      start < snum s0 -> blocks_through_cursor s start c = BErr) /\
+    (* with a LIB and without a head the Go code dereferences lastBlockSent = nil (blocksFromNum returns an
+       error instead); a hub has a LIB only once it has a head or is about to (C09) *)
+    (has_lib (db s) = true -> last_sent s = None ->
+       blocks_through_cursor s start c = BPanic /\ blocks_from_cursor s c = BPanic).
+
+(* in a well-formed state with a head every request is answered by a burst or by "no source":
+   the model never runs out of fuel and never takes the nil-dereference branch *)
+Definition C05_total : Prop :=
+  forall s start c, wf_state s -> last_sent s <> None ->
+    served_or_not (blocks_from_cursor s c) /\
+    served_or_not (blocks_through_cursor s start c) /\
+    served_or_not (hub_through_cursor s start c).
